@@ -65,6 +65,9 @@ type Fact struct {
 	MInt                  map[string]int
 	Idx                   int64
 	Key                   string
+	PB                    *bool
+	AnyB                  interface{}
+	MAny                  map[string]interface{}
 }
 
 // State is the content of a data context: key -> *Fact | *Tool | JSON tree | scalar.
